@@ -259,20 +259,36 @@ def run(fx, chk, tier):
                     "chunk bookkeeping (%s) and the demuxer's offset lookup (%s) do not share the stsc / co64 tables" % (sorted(wr), sorted(rd)), site_of(wc))
 
     # ---------------- R2
-    wbody = body_of(we)
+    wbody0 = body_of(we)
+    moov_w0 = [b for b, t in wbody0.calls() if (callee_path(t["callee"]) or "").endswith("::write_box") and "MoovBox" in (callee_path(t["callee"]) or "")]
+    # the per-track flush may live in a private helper of the writer that write_end calls before it writes moov
+    host = we
+    for _b, _t in wbody0.calls():
+        g_ = fx.fns.get(callee_path(_t["callee"]) or "")
+        if g_ is None or g_["id"] == twe["id"] or not short((g_.get("impl") or {}).get("self_ty", "")).startswith("Mp4Writer") or body_of(g_) is None:
+            continue
+        reach_flush = any(callee_path(t2["callee"]) == twe["id"] for _b2, t2 in body_of(g_).calls()) or any(
+            k.startswith(g_["id"] + "::{closure") and body_of(fx.fns[k]) is not None and any(callee_path(t2["callee"]) == twe["id"] for _b2, t2 in body_of(fx.fns[k]).calls()) for k in fx.fns)
+        if reach_flush and len(moov_w0) == 1 and not wbody0.can_reach(moov_w0[0], _b):
+            host = g_
+    wbody = body_of(host)
     flush_calls = [b for b, t in wbody.calls() if callee_path(t["callee"]) == twe["id"]]
-    moov_w = [b for b, t in wbody.calls() if (callee_path(t["callee"]) or "").endswith("::write_box") and "MoovBox" in (callee_path(t["callee"]) or "")]
-    ok = len(flush_calls) == 1 and wbody.in_loop(flush_calls[0]) and len(moov_w) == 1 and not wbody.can_reach(moov_w[0], flush_calls[0])
+    if host is we:
+        moov_w = moov_w0
+    else:
+        # inside the helper there is no moov write: the ordering was established at its call site
+        moov_w = [None]
+    ok = len(flush_calls) == 1 and wbody.in_loop(flush_calls[0]) and len(moov_w) == 1 and (moov_w[0] is None or not wbody.can_reach(moov_w[0], flush_calls[0]))
     # the loop is over self.tracks
     if ok:
-        ls = LP.inventory(fx, we["id"])
+        ls = LP.inventory(fx, host["id"])
         L = [l for l in ls if flush_calls[0] in l.blocks]
         nb, nt = LP.driver_next_call(wbody, L[0], ls) if L else (None, None)
         ok = nt is not None and "IterMut" in (nt["callee"].get("full") or "") and "Mp4TrackWriter" in (nt["callee"].get("full") or "")
     visit = None
     if not ok and len(moov_w) == 1 and not flush_calls:
         # the per-track flush may sit in a closure handed to a visit-every-element combinator over the track writers
-        for cid in [k for k in fx.fns if k.startswith(we["id"] + "::{closure")]:
+        for cid in [k for k in fx.fns if k.startswith(host["id"] + "::{closure")]:
             cb = body_of(fx.fns[cid])
             if cb is None or not any(callee_path(t["callee"]) == twe["id"] for _b, t in cb.calls()):
                 continue
@@ -281,7 +297,7 @@ def run(fx, chk, tier):
                 last_ = strip_generics(t["callee"].get("path") or "").split("::")[-1]
                 uses_closure = any(cid.split("::")[-1].strip("{}") in (a.get("ty") or (op_place(a) or {}).get("ty") or "") or "closure" in ((op_place(a) or {}).get("ty") or "") for a in t["args"])
                 if last_ in ("try_for_each", "try_fold", "for_each") and full.startswith("<core::slice::iter::IterMut<") and "Mp4TrackWriter" in full.split(" as ")[0] and uses_closure:
-                    if not wbody.can_reach(moov_w[0], b):
+                    if moov_w[0] is None or not wbody.can_reach(moov_w[0], b):
                         visit = (cid, b, last_)
         ok = visit is not None
     chk.require(ok, "R2", "write_end|all-tracks", "track write_end called in the loop over the track writers, before moov.write_box",
@@ -402,7 +418,7 @@ def run(fx, chk, tier):
                 rv_ = sd_[3]
                 pl_ = rv_.get("place") if rv_["k"] == "ref" else (op_place(rv_["a"]) if rv_["k"] in ("use", "cast") else None)
             return txt
-        pu = [b for b, t in cb.calls() if (t["callee"].get("path") or "").endswith("Vec::<T, A>::push") and "traks" in capture_src(t["args"][0])]
+        pu = [b for b, t in cb.calls() if (t["callee"].get("path") or "").endswith("Vec::<T, A>::push") and ("traks" in capture_src(t["args"][0]) or "TrakBox>" in str((op_place(t["args"][0]) or {}).get("ty") or ""))]
         ok = len(fl) == 1 and len(pu) == 1 and cb.dominates(fl[0], pu[0])
     chk.require(ok, "R4", "write_end", "traks pushed in track-vector order", "write_end does not emit the trak boxes in the order of the track vector", site_of(we))
     # ---------------- R6 / R7
